@@ -22,10 +22,14 @@ type Outcome struct {
 	HasOut bool
 }
 
+// ScratchPrefix names the scratch module directories. C05 sets a prefix with per-cent signs: the path of the setup
+// file is data in every diagnostic, never part of a format string.
+var ScratchPrefix = "m"
+
 // RunModule materialises files into a fresh directory and runs the binary on the setup file from
 // the module root with the default flags.
 func RunModule(env *hx.Env, files hx.Files, args ...string) (*Outcome, error) {
-	dir := env.Scratch("m")
+	dir := env.Scratch(ScratchPrefix)
 	if err := hx.WriteTree(dir, files); err != nil {
 		return nil, err
 	}
@@ -43,7 +47,7 @@ func RunModule(env *hx.Env, files hx.Files, args ...string) (*Outcome, error) {
 
 // RunModuleEnv is RunModule with extra environment variables and exactly the given arguments (none means none).
 func RunModuleEnv(env *hx.Env, files hx.Files, extraEnv []string, args ...string) (*Outcome, error) {
-	dir := env.Scratch("m")
+	dir := env.Scratch(ScratchPrefix)
 	if err := hx.WriteTree(dir, files); err != nil {
 		return nil, err
 	}
